@@ -102,6 +102,19 @@ def main():
             for v in r.get("violations", []):
                 failing.append(v)
 
+    # 5. property-specific runs (C driver, CLI, allocator ...) -------------------
+    for ex in cfg.get("extras", []):
+        r = props.run_extra(ex, seed, tier)
+        log.append("extra %s ok=%s evals=%s" % (ex, r.get("ok"), r.get("evaluations")))
+        evaluations += r.get("evaluations", 0)
+        nontrivial += r.get("distinct_nontrivial", 0)
+        cov.setdefault("extras", {})[ex] = r.get("coverage", {})
+        cov["samples"] += r.get("samples", [])[:2]
+        for b in r.get("broken", []):
+            broken.append(("correspondence", ex, b))
+        for v in r.get("violations", []):
+            failing.append(v)
+
     # known findings -----------------------------------------------------------
     kf = props.known_findings(pid)
     new_failing = []
